@@ -45,6 +45,14 @@ def gen_scenario(rng, profile: dict) -> dict:
             ex["max_workers"] = rng.choice([1, 2, 3])
         else:
             limit = None
+    if mode != "block" and profile.get("resources", True) and rng.random() < profile.get("slurm_p", 0.2):
+        # srun stand-in: the executor-level threads_per_core is handed to the workers and counts in the slots (fix 8703212)
+        ex["backend"] = "slurm_allocation"
+        ex["hostname_localhost"] = True
+        t = rng.choice([1, 2, 2, 3])
+        if limit is not None:
+            t = min(t, limit)
+        ex["resource_dict"] = {"threads_per_core": t}
     if rng.random() < profile.get("cache_p", 0.15):
         # a (fresh, per-run) cache directory: every call of a scenario has its own key, so all look-ups miss and the run is
         # a run of Sys all the same; the extra code path (serialize, listdir, dump, rename) is what this exercises
@@ -385,7 +393,10 @@ def judge(model, scen: dict, out: dict) -> dict:
         limit, weight = ex.get("max_workers"), (lambda i: 1)
     elif ex.get("max_cores") is not None:
         limit = ex["max_cores"]
-        weight = lambda i: max(1, (scen["calls"][i].get("resource_dict") or {}).get("threads_per_core", 1))  # noqa: E731
+        # threads the worker of call i is really started with: its own threads_per_core, else the executor-level value (which the
+        # local back end does not hand on)
+        exec_thr = 1 if ex.get("backend", "local") == "local" else (ex.get("resource_dict") or {}).get("threads_per_core", 1)
+        weight = lambda i: max(1, (scen["calls"][i].get("resource_dict") or {}).get("threads_per_core", exec_thr))  # noqa: E731
     elif ex.get("max_workers") is not None:
         limit, weight = ex["max_workers"], (lambda i: 1)
     if limit is not None:
